@@ -49,6 +49,10 @@ def run(ctx):
     import srvload
     srvload.run(ctx)
 
+    # "its listener's service": the token / factory / socket wiring of ServerBuilder for every call sequence (Builder.tla)
+    import srvbuilder
+    srvbuilder.run(ctx)
+
 
 WINV = ["T_C01_NoCallInShutdown", "T_C01_ShutdownDrainsQueue", "T_C01_DrainReleases", "T_C07_QueueMeasured"]
 
@@ -58,6 +62,9 @@ def replay(ctx, path):
     if _j.load(open(path))["replay"].get("mode") == "e2e-load":
         import srvload
         return srvload.replay(ctx, path)
+    if _j.load(open(path))["replay"].get("mode") == "builder":
+        import srvbuilder
+        return srvbuilder.replay(ctx, path)
     import json
     rp = json.load(open(path))["replay"]
     if any(i in WINV for i in (rp.get("invariants") or [])):
